@@ -60,7 +60,7 @@ class Mon:
     def attach(self):
         from pydrobert.speech import util as U
 
-        monitor.attach(U, "read_signal", pre=self.pre, post=self.post, is_method=False)
+        monitor.attach(U, "read_signal", pre=self.pre, post=self.post, is_method=False, ambient=self.v, ambient_ok=monitor.named_file)
 
     def v(self, what, **kw):
         self.rec.violation(dict(what=what, case=self.case, **kw))
